@@ -40,6 +40,7 @@ func inj(tag string, q byte) scen.Step {
 func handle(h int) scen.Step { return scen.Step{Op: "handle", H: h} }
 
 var workloads = map[string]workload{
+	"q2sub": {Steps: []scen.Step{subw(ss("u/s1", 1)), pub(2, "a"), sub(ss("u/s2", 2)), pub(2, "b"), op("cut"), pub(2, "c")}},
 	// the client subscribes to what it publishes: inbound traffic (acknowledged by the reader goroutine) runs
 	// alongside the outbound exchanges; only meaningful with the Echo broker configuration
 	"echo":    {Pre: []scen.Step{handle(1)}, Steps: []scen.Step{subw(ss("t/#", 2)), pub(1, "a"), pub(2, "b"), pub(0, "z"), pub(2, "c"), op("cut"), pub(1, "d"), pub(2, "e")}},
